@@ -1981,6 +1981,11 @@ class ReferenceManager:
         else:
             raise RuntimeError("must not happen")
 
+        # Register the new ref first so that the spec is kept
+        # when the same value is assigned again.
+        if not isinstance(value, Interface):
+            self._valid_to_refs.setdefault(id(value), []).append(refdict[name])
+
         refs = self._valid_to_refs.get(prev_valid, None)
         if refs is not None:        # None in case prev_ref is derived
             if prev_ref in refs:
@@ -1990,9 +1995,6 @@ class ReferenceManager:
                 spec = self._manager.get_spec_from_value(self._model.interface, prev_val)
                 if spec:
                     self._manager.del_spec(spec)
-
-        if not isinstance(value, Interface):
-            self._valid_to_refs.setdefault(id(value), []).append(refdict[name])
 
     def del_all_spec(self):
         specs = self.specs.copy()
